@@ -8,6 +8,10 @@ obligations `Extracted.x = <what the model assumes> := by decide`, so a change t
 these tables breaks a proof obligation on the next run. Anything that cannot be found is
 emitted as a sentinel (`none` / `[]` / `false`) so the obligation fails rather than the
 extractor crashing.
+
+The same run also regenerates `lean/RactorModel/Generated/<Area>.lean` (+ `report.json`) through
+`extract/rs2lean.py`: Lean DEFINITIONS translated from selected pure Rust functions, proved equal
+to the hand-written model functions in `Props/*.lean` (see notes/XLATE.md).
 """
 import argparse
 import re
@@ -351,6 +355,16 @@ def main():
     outp = Path(a.out)
     if not outp.exists() or outp.read_text() != text:
         outp.write_text(text)
+    # ---- rs2lean: regenerate lean/RactorModel/Generated/*.lean (translated pure functions) ----
+    # A function that cannot be translated is NOT emitted (its equivalence theorem in Props/ then
+    # fails to elaborate); the per-function report is read by bin/check.
+    sys.path.insert(0, str(Path(__file__).resolve().parent))
+    import rs2lean
+    gen = outp.parent / "Generated"
+    rep = rs2lean.generate(repo, gen, gen / "report.json")
+    for r in rep:
+        if not r["ok"]:
+            print(f"rs2lean: TRANSLATION FAILED {r['function']}: {r['error']}", file=sys.stderr)
     return 0
 
 
